@@ -593,4 +593,50 @@ def liveBatchReplay (fixed : Bool) (zero : Int) (recTime : Bool) (bs : List LBat
   let items := replayLiveGo fixed zero recTime none none bs
   ⟨.ok, items, 1, items.length⟩
 
+/-! ### The writer's state: a sink that may fail, and a scratch buffer shared by the recordings of one process
+
+`WritePointForRecording(w, p, precision)` (replay.go) is three writes on `w` (`db LF rp LF`, the line, `LF`) and stops at
+the first error; `doRecordStream` (services/replay) ignores the error and hands every further point to it. The writer
+keeps NOTHING between two calls: a recording is a function of its own points and its own sink. `writePointScratch` is
+the variant that assembles the record in a scratch buffer shared by all recordings (a pooled `bytes.Buffer` written
+with `WriteTo`, which empties the buffer only when the write succeeded completely): the state is a parameter, and
+`reset` says whether the buffer is emptied after a failed write too. -/
+
+/-- A sink that takes `room` more bytes (`none`: any number) and then fails for good (volume full; the error of the
+gzip writer of a recording is sticky). -/
+structure Sink where
+  out : Bytes := []
+  room : Option Nat := none
+deriving DecidableEq, Repr
+
+/-- `w.Write(b)`: the sink after the call and the number of bytes it took (`< b.length`: an error was returned). -/
+def Sink.write (s : Sink) (b : Bytes) : Sink × Nat :=
+  match s.room with
+  | none => (⟨s.out ++ b, none⟩, b.length)
+  | some r => if b.length ≤ r then (⟨s.out ++ b, some (r - b.length)⟩, b.length) else (⟨s.out ++ b.take r, some 0⟩, r)
+
+/-- `WritePointForRecording`: three writes, returns at the first error. -/
+def writePoint (s : Sink) (f : Frame) : Sink × Bool :=
+  let c1 := f.db ++ NL :: f.rp ++ [NL]
+  let (s1, n1) := s.write c1
+  if n1 < c1.length then (s1, false) else
+  let (s2, n2) := s1.write f.line
+  if n2 < f.line.length then (s2, false) else
+  let (s3, n3) := s2.write [NL]
+  (s3, !(n3 < 1))
+
+/-- `doRecordStream`: every point goes to the writer, its error is ignored. -/
+def recordInto (s : Sink) (fs : List Frame) : Sink := fs.foldl (fun s f => (writePoint s f).1) s
+
+/-- The scratch-buffer variant of the writer: record appended to the shared buffer, one write, the buffer keeps what
+the sink did not take unless `reset`. Returns the buffer as it goes back to the pool. -/
+def writePointScratch (reset : Bool) (scratch : Bytes) (s : Sink) (f : Frame) : Bytes × Sink :=
+  let buf := scratch ++ f.bytes
+  let (s', n) := s.write buf
+  (if n == buf.length || reset then [] else buf.drop n, s')
+
+def recordScratch (reset : Bool) : Bytes → Sink → List Frame → Bytes × Sink
+  | scratch, s, [] => (scratch, s)
+  | scratch, s, f :: fs => let (b, s') := writePointScratch reset scratch s f; recordScratch reset b s' fs
+
 end Kap.C18
